@@ -149,6 +149,28 @@ static std::string dumpForm(const RSForm& f) {
   return out;
 }
 
+// the dump handed to the Lean model of DeleteDuplicatesInternal: as dumpForm, plus the kind (CstType) after the
+// alias; records end with '#'
+static std::string dumpFormK(const RSForm& f) {
+  std::string out;
+  for (const auto uid : f.List()) {
+    const auto& rs = f.GetRS(uid); const auto& tx = f.GetText(uid);
+    out += std::to_string(uid) + ";" + rs.alias + ";" + std::to_string(static_cast<int>(rs.type)) + ";" + rs.definition + ";" + rs.convention + ";"
+         + tx.term.Text().Raw() + ";" + tx.definition.Raw() + "#";   // '#': text references contain '|'
+  }
+  return out;
+}
+
+// an equation table in the iteration order of its map: key>value/mode/arg;...
+static std::string tableWire(const ops::EquationOptions& eq) {
+  std::string out;
+  for (const auto& [k, v] : eq) {
+    if (!out.empty()) out += ";";
+    out += std::to_string(k) + ">" + std::to_string(v) + "/" + std::to_string(static_cast<int>(eq.PropsFor(k).mode)) + "/" + nosp(eq.PropsFor(k).arg);
+  }
+  return out.empty() ? "-" : out;
+}
+
 static void chk(const std::string& name, const std::string& bad) { emit("c12 chk " + name, bad.empty() ? "1" : "0:" + nosp(bad)); }
 
 static void judgeSynthesis(const RSForm& a, const RSForm& b, const ops::EquationOptions& eq, bool likeWithLike, vh::Rng& /*rng*/) {
@@ -166,6 +188,10 @@ static void judgeSynthesis(const RSForm& a, const RSForm& b, const ops::Equation
     for (const auto& [k, v] : eq) eqs += (a.Contains(k) ? a.GetRS(k).alias : std::to_string(k)) + "=" + (b.Contains(v) ? b.GetRS(v).alias : std::to_string(v)) + "/" + std::to_string(static_cast<int>(eq.PropsFor(k).mode)) + ",";
     emit("c12 synth " + nosp("A[" + before1 + "]B[" + before2 + "]EQ[" + eqs + "]"), std::string(defined ? "defined" : "refused") + (res ? " result" : " none"));
   }
+  // the whole synthesis against the Lean model (BinarySynthes = merge, translate the table, equate or delete
+  // duplicates, reset aliases, substitute the translations)
+  emit("c12 synthM " + nosp(dumpFormK(a)) + " " + nosp(dumpFormK(b)) + " " + tableWire(eq) + " - " + (defined ? "acc" : "ref"),
+       (defined && res) ? trWire(synth.Translations().at(0)) + " " + trWire(synth.Translations().at(1)) + " " + nosp(dumpFormK(*res)) : std::string("refused"));
   chk("operands-untouched", (before1 == dumpForm(a) && before2 == dumpForm(b)) ? "" : "operand modified");
   if (!defined) { chk("refused-gives-nothing", res == nullptr ? "" : "result although refused"); return; }
   if (res == nullptr) { chk("defined-gives-result", "no result"); return; }
@@ -291,8 +317,12 @@ static void synthesisCase(vh::Rng& rng) {
     eq.Insert(rng.pick(uc), rng.pick(uc), ops::Equation{ static_cast<ops::Equation::Mode>(rng.range(1, 3)), "x" });
     if (rng.chance(1, 2)) eq.Insert(rng.pick(uc), rng.pick(uc), ops::Equation{});
     const auto before = dumpForm(c);
+    const auto beforeK = dumpFormK(c);
+    const auto table = tableWire(eq);
     const auto tr = c.Ops().Equate(eq);
     emit("c12 equate", tr.has_value() ? "accepted" : "refused");
+    emit("c12 equateM " + nosp(beforeK) + " " + table + " " + (tr.has_value() ? "acc" : "ref"),
+         (tr.has_value() ? trWire(*tr) : std::string("refused")) + " " + nosp(dumpFormK(c)));
     if (!tr.has_value()) chk("refused-is-identity", before == dumpForm(c) ? "" : "schema modified by a refused equation");
     else {
       std::string bad; std::set<std::string> seen;
@@ -300,6 +330,37 @@ static void synthesisCase(vh::Rng& rng) {
       for (const auto& [k, v] : eq) if (c.Contains(k)) bad = "equated key " + std::to_string(k) + " still present";
       for (const auto& [k, v] : *tr) if (!c.Contains(v)) bad = "translation points to a removed constituent";
       chk("equate-consistent", bad);
+    }
+  }
+  // in-schema equation of like with like (terms of equal typification, base sets): mostly admissible; all three text
+  // modes; sometimes two keys with one value; tied to the Lean model of RSEquationProcessor::Execute
+  {
+    RSForm c = a;
+    std::vector<uint32_t> uc;
+    for (const auto u : c.List()) uc.push_back(u);
+    ops::EquationOptions eq;
+    const int want = rng.range(1, 3);
+    for (int tries = 0; tries < 12 && static_cast<int>(std::size(eq)) < want; ++tries) {
+      const auto k = rng.pick(uc), v = rng.pick(uc);
+      if (k == v || eq.ContainsKey(k) || eq.ContainsKey(v) || eq.ContainsValue(k)) continue;
+      if (c.GetRS(k).type != c.GetRS(v).type || typeStr(c.GetParse(k)) != typeStr(c.GetParse(v)) || typeStr(c.GetParse(k)) == "-") continue;
+      eq.Insert(k, v, ops::Equation{ static_cast<ops::Equation::Mode>(rng.range(1, 3)), "new @{" + c.GetRS(v).alias + "|nomn,sing} term" });
+    }
+    if (!std::empty(eq)) {
+      const auto beforeK = dumpFormK(c);
+      const auto table = tableWire(eq);
+      const auto tr = c.Ops().Equate(eq);
+      emit("c12 equateM " + nosp(beforeK) + " " + table + " " + (tr.has_value() ? "acc" : "ref"),
+           (tr.has_value() ? trWire(*tr) : std::string("refused")) + " " + nosp(dumpFormK(c)));
+      if (tr.has_value()) {
+        std::string bad; std::set<std::string> seen;
+        for (const auto uid : c.Core()) if (!seen.insert(c.GetRS(uid).alias).second) bad = "duplicate alias";
+        for (const auto& [k, v] : eq) if (c.Contains(k)) bad = "equated key still present";
+        for (const auto& [k, v] : eq) if (!tr->ContainsKey(k) || !c.Contains((*tr)(k))) bad = "equated key not represented";
+        for (const auto& [k, v] : eq) if (bad.empty() && (*tr)(k) != (tr->ContainsKey(v) ? (*tr)(v) : v)) bad = "equated pair has two survivors";
+        for (const auto& [k, v] : *tr) if (!c.Contains(v)) bad = "translation points to a removed constituent";
+        chk("equate-like-consistent", bad);
+      }
     }
   }
   // merge: every constituent of the second schema is represented, aliases unique
@@ -319,6 +380,32 @@ static void synthesisCase(vh::Rng& rng) {
     emit("c12 merge", "done");
     chk("merge-consistent", bad);
   }
+  // MergeWith against the Lean model (translation and resulting content), and against the specification
+  // "the copy carries the operand's content with every mention renamed once". `selfcollide`: some operand
+  // constituent mentions itself, was renamed, and its new alias is also an alias of the operand (the case repaired by
+  // d6a760d: the self-mention used to be renamed twice); both op names are judged by the same exact-content spec
+  auto mergeModel = [&](const RSForm& into, const RSForm& operand) {
+    RSForm c = into;
+    const auto tr = c.Ops().MergeWith(operand);
+    std::string fresh; bool collide = false;
+    std::set<std::string> opAliases;
+    for (const auto uid : operand.Core()) opAliases.insert(operand.GetRS(uid).alias);
+    for (const auto uid : operand.List()) {
+      if (!tr.ContainsKey(uid) || !c.Contains(tr(uid))) continue;
+      if (tr(uid) != uid) { if (!fresh.empty()) fresh += ","; fresh += std::to_string(tr(uid)); }
+      const auto& old = operand.GetRS(uid).alias; const auto& now = c.GetRS(tr(uid)).alias;
+      if (old == now || !opAliases.count(now)) continue;
+      static const std::regex id("[XCSADFTP][0-9]+");
+      const auto& rs = operand.GetRS(uid); const auto& tx = operand.GetText(uid);
+      for (const auto* text : { &rs.definition, &rs.convention })
+        for (auto it = std::sregex_iterator(text->begin(), text->end(), id); it != std::sregex_iterator(); ++it) if (it->str() == old) collide = true;
+      for (const auto& text : { tx.term.Text().Raw(), tx.definition.Raw() }) if (text.find("@{" + old + "|") != std::string::npos) collide = true;
+    }
+    emit(std::string(collide ? "c12 mergeM-selfcollide " : "c12 mergeM ") + nosp(dumpFormK(into)) + " " + nosp(dumpFormK(operand)) + " " + (fresh.empty() ? "-" : fresh),
+         trWire(tr) + " " + nosp(dumpFormK(c)));
+  };
+  mergeModel(a, b);
+  mergeModel(a, a);   // every uid and every alias of the operand is taken
 }
 
 // duplicates inside one schema: DeleteDuplicates gives a translation from every removed constituent to
@@ -364,9 +451,20 @@ static void dupCase(vh::Rng& rng) {
   if (rng.chance(1, 3)) for (int i = 0; i < 2; ++i)
     f.Emplace(CstType::function, "[\xCE\xB1\xE2\x88\x88" + BOOL + "(" + alias(bases[0]) + ")] \xCE\xB1" + UNION + alias(rng.pick(terms)));
   if (rng.chance(1, 3)) { const auto t = rng.pick(terms); f.SetTermFor(t, "name"); }
+  // conventions and text references that mention terms (TranslateAll rewrites them too, and they take part in the
+  // comparison of constituents): the same text on the first two terms keeps copies identical
+  if (rng.chance(1, 3)) {
+    const auto n = pickName();
+    const int how = rng.range(0, 2);
+    for (size_t i = 0; i < 2 && i < terms.size(); ++i) {
+      if (how != 1) f.SetConventionFor(terms[i], "about " + n);
+      if (how != 0) f.SetDefinitionFor(terms[i], "see @{" + n + "|nomn,sing} and " + n);
+      if (!rng.chance(3, 4)) break;
+    }
+  }
   const RSForm before = f;
   const auto tr = f.Ops().DeleteDuplicates();
-  emit("c12 dups " + nosp(dumpForm(before)), trWire(tr));
+  emit("c12 dups " + nosp(dumpFormK(before)), trWire(tr) + " " + nosp(dumpFormK(f)));   // translation and resulting content: both compared with the Lean model
   std::string bad;
   for (const auto& [k, v] : tr) {
     if (!before.Contains(k)) bad = "key " + std::to_string(k) + " never existed";
